@@ -1,5 +1,5 @@
 //! C13 — layers deliver exactly the transformed operations to exactly the right recorders.
-use crate::doubles::{self, Kind, KeyDesc, LogRecorder, Op, Rec};
+use crate::doubles::{self, Kind, LogRecorder, Op, Rec};
 use crate::rt::{fnv, mix, Args, Report, Rng, J};
 use metrics::{Key, KeyName, Label, Level, Metadata, Recorder, SharedString, Unit};
 use metrics_util::layers::{FanoutBuilder, FilterLayer, Layer, PrefixLayer, RouterBuilder, Stack};
